@@ -248,6 +248,8 @@ theorem sinv_step (env : Env) {s s' : St} (op : Op) (h : SInv s) (hs : step env 
     simp [step] at hs; obtain ⟨p, _, rfl⟩ := hs; exact h
   | addURI u a b c d =>
     simp [step] at hs; obtain ⟨p, _, rfl⟩ := hs; exact h
+  | setGradient st k a1 =>
+    simp [step] at hs; obtain ⟨p, _, rfl⟩ := hs; exact h
   | startText =>
     simp only [step] at hs
     split at hs
